@@ -8,6 +8,7 @@ import (
 	"context"
 	"encoding/json"
 	"fmt"
+	"io"
 	"sort"
 	"strconv"
 	"strings"
@@ -66,6 +67,58 @@ type c07case struct {
 	AttrsR  bool     `json:"inherit_flag"`
 	Format  string   `json:"format"`
 	Pattern string   `json:"pattern,omitempty"`
+	// Pre: what happened before the call and cannot matter by the statement
+	//  prior-records   the logger logged without arguments, another logger (own attributes and arguments) logged in between, twice
+	//  ctx-keys-reset  other context keys were registered and removed with ResetContextKeys before the final ones were registered
+	//  groups-mutated  every group (own and call-site) was built with other members, printed once, then given its final members through SetValue/Add
+	Pre string `json:"pre,omitempty"`
+}
+
+type c07pending struct {
+	g     slog.Attr
+	final []slog.Attr
+}
+
+// kvAttrMut builds a with placeholder members in every group and records what each group must become.
+func kvAttrMut(a kv, pend *[]c07pending) slog.Attr {
+	if a.IsG {
+		ms := make([]slog.Attr, 0, len(a.G))
+		for _, m := range a.G {
+			ms = append(ms, kvAttrMut(m, pend))
+		}
+		g := slog.NewGroupedAttr(a.K, slog.NewAttr("zz-old", 1), slog.NewAttr("aa-old", 2))
+		*pend = append(*pend, c07pending{g, ms})
+		return g
+	}
+	return slog.NewAttr(a.K, a.ID)
+}
+
+type attrMutator interface {
+	SetValue(v any)
+}
+
+func c07mutate(pend []c07pending) {
+	for i, p := range pend {
+		sv, ok := p.g.(attrMutator)
+		if !ok {
+			panic("group attribute has no SetValue")
+		}
+		switch i % 3 {
+		case 0:
+			sv.SetValue(slog.Attrs(p.final))
+		case 1:
+			sv.SetValue([]slog.Attr(p.final))
+		default:
+			sv.SetValue(slog.Attrs{})
+			for j, m := range p.final {
+				if ad, ok := p.g.(interface{ Add(as ...slog.Attr) }); ok && j%2 == 0 {
+					ad.Add(m)
+				} else {
+					sv.SetValue(m)
+				}
+			}
+		}
+	}
 }
 
 type ctxStringerKey struct{ n string }
@@ -166,10 +219,15 @@ func c07emit(cas c07case) (payloads []string, pan string) {
 	rec := &recorder{}
 	w := &plainW{"w", rec}
 	var l *slog.Entry
+	var pend []c07pending
+	mkAttr := kvAttr
+	if cas.Pre == "groups-mutated" {
+		mkAttr = func(a kv) slog.Attr { return kvAttrMut(a, &pend) }
+	}
 	for d, own := range cas.Chain {
 		var attrs []slog.Attr
 		for _, a := range own {
-			attrs = append(attrs, kvAttr(a))
+			attrs = append(attrs, mkAttr(a))
 		}
 		name := fmt.Sprintf("l%d", d)
 		if d == 0 {
@@ -202,6 +260,10 @@ func c07emit(cas c07case) (payloads []string, pan string) {
 	default:
 		l.SetColorMode(true)
 	}
+	if cas.Pre == "ctx-keys-reset" {
+		l.SetContextKeys("old1", ctxStringerKey{"old2"}, "ctxs", ctxOtherKey{"old3"})
+		l.ResetContextKeys()
+	}
 	if len(cas.CtxKeys) > 0 {
 		var keys []any
 		for _, k := range cas.CtxKeys {
@@ -218,7 +280,27 @@ func c07emit(cas c07case) (payloads []string, pan string) {
 	}
 	args := make([]any, 0, len(cas.Call))
 	for _, a := range cas.Call {
-		args = append(args, kvAttr(a))
+		args = append(args, mkAttr(a))
+	}
+	switch cas.Pre {
+	case "prior-records":
+		other := slog.New("other").SetWriter(io.Discard).SetErrorWriter(io.Discard).SetLevel(slog.AlwaysLevel).SetAttrs(slog.NewAttr("x", 8), slog.NewAttr("y", 9))
+		pan = catch(func() {
+			l.Info("pre")
+			other.Info("o", "p", 1, "q", 2)
+			l.InfoContext(ctx, "pre2")
+			other.Warn("o2", "r", 3, slog.NewGroupedAttr("og", slog.NewAttr("s", 4)))
+		})
+		rec.reset()
+	case "groups-mutated":
+		pan = catch(func() {
+			l.InfoContext(ctx, "pre", args...)
+			c07mutate(pend)
+		})
+		rec.reset()
+	}
+	if pan != "" {
+		return nil, "preamble: " + pan
 	}
 	pan = catch(func() { l.InfoContext(ctx, "m", args...) })
 	for _, e := range rec.events {
@@ -492,6 +574,7 @@ func c07cases(thorough bool, emit func(c07case)) {
 	}
 	rec(nil)
 	pats := callPatterns()
+	seq := 0
 	for ci, ch := range chains {
 		for _, n := range sizes {
 			for _, pt := range pats {
@@ -506,7 +589,13 @@ func c07cases(thorough bool, emit func(c07case)) {
 					}
 					for _, r := range []bool{false, true} {
 						for _, f := range []string{"json", "logfmt", "color"} {
-							emit(c07case{Chain: ch, Call: pt.mk(n), CtxKeys: cs.keys, CtxHas: cs.has, NilCtx: cs.nilCtx, AttrsR: r, Format: f, Pattern: pt.name})
+							cas := c07case{Chain: ch, Call: pt.mk(n), CtxKeys: cs.keys, CtxHas: cs.has, NilCtx: cs.nilCtx, AttrsR: r, Format: f, Pattern: pt.name}
+							emit(cas)
+							seq++
+							if thorough || seq%3 == 0 || n == 0 {
+								cas.Pre = []string{"prior-records", "ctx-keys-reset", "groups-mutated"}[(seq/3)%3]
+								emit(cas)
+							}
 						}
 					}
 				}
@@ -562,6 +651,13 @@ func c07min(cas c07case, clause string) c07case {
 				cas, changed = c, true
 			}
 		}
+		if cas.Pre != "" {
+			c := cas
+			c.Pre = ""
+			if still(c) {
+				cas, changed = c, true
+			}
+		}
 	}
 	return cas
 }
@@ -581,7 +677,7 @@ func c07evalMin(cas c07case) *Violation {
 	for _, l := range m.Chain {
 		chain = append(chain, kvsString(l))
 	}
-	sig := fmt.Sprintf("C07|%s|%s|chain=%s call=%s ctx=%v/%v nilctx=%v inherit=%v", mv.Clause, m.Format, strings.Join(chain, ">"), kvsString(m.Call), m.CtxKeys, m.CtxHas, m.NilCtx, m.AttrsR)
+	sig := fmt.Sprintf("C07|%s|%s|chain=%s call=%s ctx=%v/%v nilctx=%v inherit=%v pre=%s", mv.Clause, m.Format, strings.Join(chain, ">"), kvsString(m.Call), m.CtxKeys, m.CtxHas, m.NilCtx, m.AttrsR, m.Pre)
 	if len(sig) > 400 {
 		sig = sig[:400]
 	}
